@@ -4,9 +4,10 @@
 //
 //   obj (D0 D1 …) (A0 A1 …)
 //
-//   D    ::= (PARENT (ATTR*) EQ EIT SER [(k (NAME VAL)*)])
+//   D    ::= (PARENT (ATTR*) EQ EIT SER [(k (NAME VAL)*)] [(p (NAME TY)*)])
 //                                                definition i is named T<i>; PARENT ::= - | <index of an earlier definition>;
-//                                                the optional last element is `constants => {NAME => VAL, …}`
+//                                                the optional elements are `constants => {NAME => VAL, …}` and
+//                                                `type_parameters => {NAME => TY, …}`
 //   ATTR ::= (NAME TY KIND DFLT [o] [f|nf])
 //                                                NAME: plain member name (atom); KIND ::= n | c | d | g | r
 //                                                (normal, constant, derived, given_or_derived, reference); DFLT ::= - | VAL;
@@ -366,6 +367,7 @@ type def struct {
 	ser    []string
 	hasSer bool
 	consts []attr // `constants => {name => value}`: kind c, dflt = the value, ty = the type inferred from it
+	params []attr // `type_parameters => {name => Type}`: name and ty only
 	// deco > 0 (implementation-only op `objd`): definition number deco-1 additionally declares a member function
 	// fn<number> (and re-declares its parent's with `override => true` when the number is odd) and carries a type-level
 	// annotation; neither has any bearing on construction, Get, init-hash or equality
@@ -435,11 +437,31 @@ func namesOf(es []sx.Sexp) []string {
 }
 
 func defOf(e sx.Sexp) def {
-	if !e.IsList || (len(e.List) != 5 && !(len(e.List) == 6 && e.List[5].Tag() == "k")) {
+	if !e.IsList || len(e.List) < 5 || len(e.List) > 7 {
+		panic(fmt.Errorf("bad definition %s", e))
+	}
+	tags := ""
+	for _, x := range e.List[5:] {
+		tags += x.Tag()
+	}
+	if tags != "" && tags != "k" && tags != "p" && tags != "kp" {
 		panic(fmt.Errorf("bad definition %s", e))
 	}
 	d := def{parent: -1}
-	if len(e.List) == 6 {
+	if strings.HasSuffix(tags, "p") {
+		var ns []string
+		for _, kv := range e.List[len(e.List)-1].Args() {
+			if !kv.IsList || len(kv.List) != 2 {
+				panic(fmt.Errorf("bad type parameter %s", kv))
+			}
+			d.params = append(d.params, attr{name: nameOf(kv.List[0]), ty: tyOf(kv.List[1])})
+			ns = append(ns, d.params[len(d.params)-1].name)
+		}
+		if repeats(ns) {
+			panic(fmt.Errorf("type_parameters with a repeated key %s", e))
+		}
+	}
+	if strings.HasPrefix(tags, "k") {
 		for _, kv := range e.List[5].Args() {
 			if !kv.IsList || len(kv.List) != 2 {
 				panic(fmt.Errorf("bad constant %s", kv))
@@ -600,7 +622,9 @@ type spec struct {
 	eqa  [][]string // per type: names that participate in equality (declared through the chain, or all settable ones)
 	wf   []bool     // per type: the definition is well-formed (the specification expects it to be accepted)
 	eit  []bool
-	deco bool // every definition also declares functions (op `objd`): a type without attributes is an INTERFACE
+	// per type: the type parameters, inherited first
+	tparams [][]attr
+	deco    bool // every definition also declares functions (op `objd`): a type without attributes is an INTERFACE
 }
 
 // isInterface: with functions declared (op `objd`), a type that has no attributes and whose ancestors have none is an
@@ -709,6 +733,19 @@ func mkSpec(defs []def) *spec {
 				all = append(all, sa)
 			}
 		}
+		var tps []attr
+		if d.parent >= 0 {
+			tps = append(tps, s.tparams[d.parent]...)
+		}
+		for _, q := range d.params {
+			for _, r := range tps {
+				if r.name == q.name {
+					wf = false // a type parameter cannot say `override => true`: re-declaring an inherited one is refused
+				}
+			}
+			tps = append(tps, q)
+		}
+		s.tparams = append(s.tparams, tps)
 		s.all = append(s.all, all)
 		find := func(n string) *sattr {
 			for k := range all {
@@ -819,6 +856,13 @@ func (d *def) text(name, parent string) string {
 		sb.WriteString(parent + "{")
 	}
 	var parts []string
+	if len(d.params) > 0 {
+		var ps []string
+		for _, q := range d.params {
+			ps = append(ps, quote(q.name)+" => "+q.ty.text())
+		}
+		parts = append(parts, "type_parameters => {"+strings.Join(ps, ", ")+"}")
+	}
 	if len(d.attrs) > 0 {
 		var as []string
 		for _, a := range d.attrs {
@@ -916,6 +960,13 @@ func (d *def) initHash(name string, parent px.Type) *types.Hash {
 	es := []*types.HashEntry{types.WrapHashEntry2("name", types.WrapString(name))}
 	if parent != nil {
 		es = append(es, types.WrapHashEntry2("parent", parent))
+	}
+	if len(d.params) > 0 {
+		var ps []*types.HashEntry
+		for _, q := range d.params {
+			ps = append(ps, types.WrapHashEntry2(q.name, q.ty.px()))
+		}
+		es = append(es, types.WrapHashEntry2("type_parameters", types.WrapHash(ps)))
 	}
 	if len(d.attrs) > 0 {
 		var as []*types.HashEntry
@@ -1268,6 +1319,85 @@ func (s *spec) expectGet(act *action, a *sattr) (val, bool) {
 	return val{}, false
 }
 
+// stored: how many positions the instance stores: the positional values as given, or — for a named construction and for a
+// non-empty positional one on a parameterized type, which goes through makeValueHash — up to the last position whose value is
+// not its attribute's default, never fewer than the required ones
+func (s *spec) stored(act *action) int {
+	pos := s.pos[act.t]
+	if act.op == "newpos" && (len(act.vals) == 0 || len(s.tparams[act.t]) == 0) {
+		return len(act.vals)
+	}
+	n := s.req[act.t]
+	for i, p := range pos {
+		v, given := s.givenAt(act, i)
+		if given && !(p.hasDflt && p.dv.String() == v.String()) && i+1 > n {
+			n = i + 1
+		}
+	}
+	return n
+}
+
+// givenAt: the value the construction gives for position i
+func (s *spec) givenAt(act *action, i int) (val, bool) {
+	if act.op == "newpos" {
+		if i < len(act.vals) {
+			return act.vals[i], true
+		}
+		return val{}, false
+	}
+	for k, n := range act.names {
+		if n == s.pos[act.t][i].name {
+			return act.vals[k], true
+		}
+	}
+	return val{}, false
+}
+
+// ext: the bindings of the type parameters of the instance's type, as the code makes them (typedObject.valuesFromHash):
+// a parameter is bound when the hash the values come from has a key of its name with a value of Optional[T] — for a named
+// construction the hash given; for a positional one the hash made by makeValueHash, which leaves out every value equal to its
+// attribute's default.  explicitDefault: a NAMED construction binds a parameter to a value that equals the default of the
+// attribute (known finding C17-tparam-explicit-undef: the positional twin does not, and the init-hash drops it).
+func (s *spec) ext(act *action) (ext string, explicitDefault bool) {
+	tps := s.tparams[act.t]
+	if len(tps) == 0 || s.stored(act) == 0 {
+		return "", false
+	}
+	for _, q := range tps {
+		for i, p := range s.pos[act.t] {
+			if p.name != q.name {
+				continue
+			}
+			v, given := s.givenAt(act, i)
+			if !given || !(&ty{k: "opt", elt: q.ty}).inst(v) {
+				continue
+			}
+			isDflt := p.hasDflt && p.dv.String() == v.String()
+			if act.op == "newpos" && isDflt {
+				continue
+			}
+			if isDflt {
+				explicitDefault = true
+			}
+			ext += q.name + "=" + v.String() + ";"
+		}
+	}
+	return ext, explicitDefault
+}
+
+// givesParamDefault: the construction gives some type parameter's attribute a value equal to the attribute's default (by
+// position or by name): the named twin / the positional twin / the object rebuilt from the init-hash then has another type
+func (s *spec) givesParamDefault(act *action) bool {
+	for _, q := range s.tparams[act.t] {
+		for i, p := range s.pos[act.t] {
+			if v, given := s.givenAt(act, i); p.name == q.name && given && p.hasDflt && p.dv.String() == v.String() && (&ty{k: "opt", elt: q.ty}).inst(v) {
+				return true
+			}
+		}
+	}
+	return false
+}
+
 // wellTypedNew: the construction is inside the property's quantifier (right count, every value an instance)
 func (s *spec) wellTypedNew(act *action) bool {
 	pos := s.pos[act.t]
@@ -1399,6 +1529,19 @@ func (r *run) predicate(c px.Context, s *spec, acts []action, hashes []*types.Ha
 				}
 			}
 		}
+		// a failure of the two laws below on a construction that gives a type parameter's attribute its default is the known
+		// finding C17-tparam-explicit-undef (the named constructor binds the parameter to it, the positional one and the
+		// init-hash do not): reported under its own class
+		addLaw := add
+		if s.givesParamDefault(act) {
+			addLaw = func(class, format string, a ...interface{}) {
+				if class == "fault" {
+					add(class, format, a...)
+				} else {
+					add("tparam-explicit-undef", "["+class+"] "+format, a...)
+				}
+			}
+		}
 		// positional and named construction yield equal objects
 		if act.op == "newpos" {
 			names := make([]string, len(act.vals))
@@ -1407,13 +1550,13 @@ func (r *run) predicate(c px.Context, s *spec, acts []action, hashes []*types.Ha
 			}
 			o2, cls := newObj(c, r.types[t], hashOf(names, act.vals))
 			if o2 == nil {
-				add("pos-named-differ", "object %d: named twin of a positional construction was rejected: %s", k, cls)
+				addLaw("pos-named-differ", "object %d: named twin of a positional construction was rejected: %s", k, cls)
 			} else {
 				eq1, eq2 := false, false
 				if cls := safely(func() { eq1 = o.Equals(o2, nil); eq2 = o2.Equals(o, nil) }); cls != "" {
 					add("fault", "Equals(positional, named) on object %d: %s", k, cls)
 				} else if !eq1 || !eq2 {
-					add("pos-named-differ", "object %d: positional and named construction are not equal (%v/%v)", k, eq1, eq2)
+					addLaw("pos-named-differ", "object %d: positional and named construction are not equal (%v/%v)", k, eq1, eq2)
 				}
 			}
 		}
@@ -1424,13 +1567,13 @@ func (r *run) predicate(c px.Context, s *spec, acts []action, hashes []*types.Ha
 		} else {
 			o3, cls := newObj(c, r.types[t], ih)
 			if o3 == nil {
-				add("inithash-roundtrip", "object %d: new(T, InitHash) was rejected: %s", k, cls)
+				addLaw("inithash-roundtrip", "object %d: new(T, InitHash) was rejected: %s", k, cls)
 			} else {
 				eq := false
 				if cls := safely(func() { eq = o3.Equals(o, nil) && o.Equals(o3, nil) }); cls != "" {
 					add("fault", "Equals(rebuilt, original) on object %d: %s", k, cls)
 				} else if !eq {
-					add("inithash-roundtrip", "object %d: object rebuilt from its init-hash is not equal", k)
+					addLaw("inithash-roundtrip", "object %d: object rebuilt from its init-hash is not equal", k)
 				} else {
 					// equal by Equals: also attribute by attribute (Equals may look at fewer attributes)
 					for _, p := range s.pos[t] {
@@ -1492,7 +1635,10 @@ func (r *run) predicate(c px.Context, s *spec, acts []action, hashes []*types.Ha
 				add("fault", "Equals(object %d, object %d): %s", k1, k2, cls)
 				continue
 			}
-			if t1 == t2 {
+			// the types of the two instances: the same definition and, on a parameterized type, the same bindings
+			e1, _ := s.ext(a1)
+			e2, _ := s.ext(a2)
+			if t1 == t2 && e1 == e2 {
 				if got != attrsEq {
 					add("equality-wrong", "objects %d and %d of T%d: Equals = %v, equality attributes %v equal = %v", k1, k2, t1, got, s.eqa[t1], attrsEq)
 				}
@@ -1748,7 +1894,7 @@ func exec(c px.Context, op string, args []sx.Sexp) core.Result {
 // one class is reported per op: the most specific first
 func classRank(c string) int {
 	for i, k := range []string{"fault", "schema-admitted-rejected", "renderings-differ", "reinit-differs", "new-rejected", "get-wrong", "get-constant", "pos-named-differ",
-		"inithash-roundtrip", "equality-wrong", "equality-include-type", "subtype-not-instance", "ancestor-instance-of-sub", "unrelated-instance", "type-hash-key", "message-args", "reinit-constant-undef"} {
+		"inithash-roundtrip", "equality-wrong", "equality-include-type", "subtype-not-instance", "ancestor-instance-of-sub", "unrelated-instance", "type-hash-key", "message-args", "reinit-constant-undef", "tparam-explicit-undef"} {
 		if c == k {
 			return i
 		}
